@@ -86,7 +86,7 @@ def make(planner, pd, seed):
     return PRM(timeout=0.6, connection_radius=1.0, problem_definition=pd, planner_config=cfg)
 
 
-def run(planner, pd, seed, checker, timeout=1.0):
+def run(planner, pd, seed, checker, timeout=4.0):
     """returns ('path', [states]) | ('error', text)"""
     p = make(planner, pd, seed)
     try:
